@@ -1,8 +1,8 @@
 #!/bin/bash
 # usage: run_all.sh [tier] [seed]  -> runs every registered check, prints one line per check
 TIER="${1:-quick}"; export VERIF_SEED="${2:-1}"
-cd /verif
-for id in $(python3 -c "import json;print(' '.join(c['property_id'] for c in json.load(open('/verif/MANIFEST.json'))['checks']))"); do
+cd "$(dirname "$0")/.."
+for id in $(python3 -c "import json;print(' '.join(c['property_id'] for c in json.load(open('MANIFEST.json'))['checks']))"); do
   s=$(date +%s)
   out=$(./check $id $TIER 2>&1); rc=$?
   e=$(date +%s)
